@@ -234,6 +234,56 @@ theorem C07_notice_built (x : Text × CPat × Text) (hx : x ∈ prefixShapes) (y
   simp only [beq_iff_eq] at hs
   simp [hs]
 
+/-- a concrete notice with an e-mail address (its holder ends in `>`, a character END can consume,
+    but no tail of it can begin a run of terminators) -/
+theorem C07_example_notice :
+    noticeSelf Generated.endRe "SPDX-FileCopyrightText: 2020 Jane Doe <jane@example.org>".toList = true := by
+  have hsafe : tailSafe Generated.endRe "Jane Doe <jane@example.org>".toList = true := by decide +kernel
+  have hs0 := C07A.noEndSuffix_of_tailSafe_holder Generated.endRe _ (by decide +kernel) hsafe
+  have hs := C07A.noEndSuffixC_of_tailSafe Generated.endRe "Jane Doe <jane@example.org>".toList []
+    (by decide +kernel) hsafe
+  have he : endAccepts Generated.endRe [] = true := by
+    have hstar : starBody Generated.endRe = some ((starBody Generated.endRe).getD .eps) := rfl
+    have := endAccepts_pieces ((starBody Generated.endRe).getD .eps) [] (by simp)
+    rw [← starBody_eq hstar] at this
+    exact this
+  have hwf : WFNotice Generated.endRe ("SPDX-FileCopyrightText:".toList, .spdx, []) (.single "2020".toList)
+      "Jane Doe <jane@example.org>".toList [] [] = true := by
+    simp only [WFNotice, WFHolder, he, hs, hs0, Bool.and_true]
+    decide +kernel
+  exact C07_notice_built _ (by decide) _ _ hwf (by decide +kernel)
+
+/-- the request of the examples: two licence expressions, one notice, one contributor -/
+def exampleRequest : Extracted :=
+  ⟨["MIT".toList, "GPL-2.0-or-later OR (Apache-2.0 AND BSD-3-Clause)".toList],
+   ["SPDX-FileCopyrightText: 2020 Jane Doe <jane@example.org>".toList],
+   ["Jane Doe <jane@example.org>".toList]⟩
+
+-- the hypotheses are satisfiable: Python (single-line), C (multi-line, forced), `FILE.license` (as it is)
+example : ∃ c : HdrCfg, c.style ∈ Generated.styles ∧ c.render = defaultRender ∧ c.commented = false ∧
+    lineMode c.style c.forceMulti = some .single ∧ wfRequest Generated.endRe c.style .single exampleRequest = true := by
+  refine ⟨⟨C07A.styleNamed "PythonCommentStyle", defaultRender, false, false, false, fun _ => true, id⟩,
+    C07A.styleNamed_mem "PythonCommentStyle" (by decide +kernel), rfl, rfl, by decide +kernel, ?_⟩
+  simp only [wfRequest, exampleRequest, List.all_cons, List.all_nil, Bool.and_true, C07_example_notice, Bool.true_and]
+  decide +kernel
+example : ∃ c : HdrCfg, c.style ∈ Generated.styles ∧ c.render = defaultRender ∧ c.commented = false ∧
+    lineMode c.style c.forceMulti = some .multi ∧ wfRequest Generated.endRe c.style .multi exampleRequest = true := by
+  refine ⟨⟨C07A.styleNamed "CppCommentStyle", defaultRender, false, true, false, fun _ => true, id⟩,
+    C07A.styleNamed_mem "CppCommentStyle" (by decide +kernel), rfl, rfl, by decide +kernel, ?_⟩
+  simp only [wfRequest, exampleRequest, List.all_cons, List.all_nil, Bool.and_true, C07_example_notice, Bool.true_and]
+  decide +kernel
+example : ∃ c : HdrCfg, c.style ∈ Generated.styles ∧ c.render = defaultRender ∧ c.commented = false ∧
+    lineMode c.style c.forceMulti = some .plain ∧ wfRequest Generated.endRe c.style .plain exampleRequest = true := by
+  refine ⟨⟨C07A.styleNamed "EmptyCommentStyle", defaultRender, false, false, false, fun _ => true, id⟩,
+    C07A.styleNamed_mem "EmptyCommentStyle" (by decide +kernel), rfl, rfl, by decide +kernel, ?_⟩
+  simp only [wfRequest, exampleRequest, List.all_cons, List.all_nil, Bool.and_true, C07_example_notice, Bool.true_and]
+  decide +kernel
+-- … and the side conditions exclude what they should: `MIT"` (the line could run on into `\n>`), a
+-- value ending in the Fortran frame ` c`, a contributor that is a copyright notice
+example : tailSafe Generated.endRe "MIT\"".toList = false := by decide +kernel
+example : frameFree (linePrefix (C07A.styleNamed "FortranCommentStyle") .single) "Vitamin c".toList = false := by
+  decide +kernel
+
 /-! ### File types: the two tables and the routing to `FILE.license` -/
 
 /-- Table obligation (re-opened whenever a table changes): every entry of
